@@ -98,6 +98,12 @@ CLAIMS = {
         "Trusted: lark's grammar compilation (used as data), the frozen child->attribute map (DESIGN.md A.3).",
         "DESIGN.md §4 C07",
     ),
+    "C06": (
+        "def-use provenance of the C writer's signal/message attributes; handler inventory from the clang AST of the C run time vs. the scalar types the Python side can emit and the template's call arity; constant-key enumeration; typed-AST narrowing rule on values positioned by `<< start`; sibling rule on signed decoders",
+        "Narrow: each C signal takes name, start bit, width, type and signedness from the layout leaf being iterated and each message takes id, name, period (default -1), signals and dlc = ceil((start+length)/8) from its own binding's layout of the same iteration; every scalar type that can reach the template has decode and encode handlers defined and declared in the C run time with the arity the template passes; literal lookup tables are only indexed with keys they contain and short integers get a C member type; in every handler reachable from the template a value positioned by `<< start` is not narrowed below 64 bits before it is returned; every signed decoder sign-extends by its length parameter, guarded where the shift can reach the type width. Does NOT decide the mask table, byte swaps, linear scaling, nor that the rendered C compiles for every schema.",
+        "Trusted: clang's typed AST of the run time (parse only); the layout (C04).",
+        "DESIGN.md §4 C06",
+    ),
 }
 
 NOT_BUILT = "check not built yet in this session (see DESIGN.md §7 build order); not claimed until it exists"
